@@ -198,6 +198,13 @@ def fresh_like(name, v):
     return fresh(name)
 
 
+def _tuple_get(t, i):
+    out = as_int(t[-1])
+    for k in range(len(t) - 2, -1, -1):
+        out = z3.If(as_int(i) == k, as_int(t[k]), out)
+    return out
+
+
 def as_int(v):
     if isinstance(v, Opaque):
         return fresh("opaque")
@@ -587,6 +594,9 @@ class ExprEval:
             return z3.Implies(as_bool(self.ev(n.args[0])), as_bool(self.ev(n.args[1])))
         if name == "iff":
             return as_bool(self.ev(n.args[0])) == as_bool(self.ev(n.args[1]))
+        if name == "full" and isinstance(f, ast.Attribute) and len(n.args) == 2 and self.engine is not None:
+            fill = as_int(self.ev(n.args[1]))
+            return Arr1(lambda i, fill=fill: fill, as_int(self.ev(n.args[0])))
         if name == "arange" and isinstance(f, ast.Attribute) and n.args and self.engine is not None:
             return Arr1(lambda i: i, as_int(self.ev(n.args[0])))
         if name in ("where", "flatnonzero") and isinstance(f, ast.Attribute) and len(n.args) == 1 and self.engine is not None:
@@ -1025,6 +1035,22 @@ class Engine:
                     z3.ForAll([q], z3.Implies(z3.Or(q < lo, q >= hi), z3.Select(a2, q) == as_int(base.get(q))))])
                 env[target.value.id] = Arr1(lambda t, a2=a2: z3.Select(a2, t), base.length)
                 return env
+            if isinstance(base, Arr1) and len(idx) == 1 and not isinstance(idx[0], ast.Slice) and not isinstance(val, (Arr1, tuple, Small)):
+                ixs = ee.ev(idx[0])
+                if isinstance(ixs, tuple):
+                    ixs = Arr1(lambda i, t=ixs: _tuple_get(t, i), z3.IntVal(len(ixs)))
+                if isinstance(ixs, Arr1):
+                    # a[ix] = scalar: every listed position gets the value, all others keep theirs
+                    qi, qj, q = fresh("i"), fresh("j"), fresh("q")
+                    v = as_int(val)
+                    self.emit("fancy-store-bounds[%s]" % target.value.id, path,
+                              z3.ForAll([qi], z3.Implies(z3.And(0 <= qi, qi < ixs.length), z3.And(0 <= as_int(ixs.get(qi)), as_int(ixs.get(qi)) < base.length))), line)
+                    a2 = fresh(target.value.id, A1)
+                    path.extend([
+                        z3.ForAll([qi], z3.Implies(z3.And(0 <= qi, qi < ixs.length), z3.Select(a2, as_int(ixs.get(qi))) == v)),
+                        z3.ForAll([q], z3.Or(z3.Select(a2, q) == as_int(base.get(q)), z3.Exists([qj], z3.And(0 <= qj, qj < ixs.length, as_int(ixs.get(qj)) == q))))])
+                    env[target.value.id] = Arr1(lambda t, a2=a2: z3.Select(a2, t), base.length)
+                    return env
             if isinstance(base, Arr1) and len(idx) == 1 and not isinstance(idx[0], ast.Slice) and isinstance(val, Arr1):
                 ix = ee.ev(idx[0])
                 if not isinstance(ix, Arr1):
@@ -1148,9 +1174,9 @@ class Engine:
                 # for x in [y for y in base if cond(y)]  ==  for k in range(len(base)): x = base[k]; if cond(x): body      (cut at the invariant, index _k)
                 if spec is None:
                     raise Unsupported("loop %d of %s (over a filtered list) has no invariant" % (ordinal, self.qual))
-                return self.cut_loop(st, env, path, spec, itv.base.length, "filter", itv)
+                return self.cut_loop(st, env, self.curpath, spec, itv.base.length, "filter", itv)
             if isinstance(itv, Arr1) and spec is not None:
-                return self.cut_loop(st, env, path, spec, itv.length, "array", itv)
+                return self.cut_loop(st, env, self.curpath, spec, itv.length, "array", itv)     # curpath: facts gathered while evaluating the iterable (np.flatnonzero ...)
             if isinstance(itv, Arr1) and self.opaque_ok:
                 # loop over an array without an invariant (block mode): everything its body may assign becomes unconstrained
                 itv = Opaque("loop without invariant")
@@ -1208,6 +1234,8 @@ class Engine:
             e = dict(e)
             e["_k"] = kv
             e["_ka"] = kv + off        # index into the parent array when the loop runs over a slice a[lo:hi] (otherwise == _k)
+            if mode in ("array", "enumerate") and isinstance(arr, Arr1):
+                e["_iter"] = arr       # the sequence the loop runs over (e.g. np.flatnonzero(...)), for invariants about the entries visited so far
             e["_n"] = n
             for name, v in self.entry_env.items():
                 e.setdefault("old_" + name, v)      # values at function entry, as in `ensures`
@@ -1414,4 +1442,10 @@ def discharge(ob, timeout_ms=10000):
             return "proved", "cvc5" + ("".join(opts)), time.time() - t0, None
         if r == "sat":
             return "refuted", "cvc5", time.time() - t0, None
+    # last resort, sized for a fully loaded machine (these queries need 2-20 s on an idle one): enumerative instantiation with the long budget
+    r, _ = smt.cvc5_check(s, 30 * timeout_ms / 1000.0, ["--enum-inst"])
+    if r == "unsat":
+        return "proved", "cvc5--enum-inst(long budget)", time.time() - t0, None
+    if r == "sat":
+        return "refuted", "cvc5", time.time() - t0, None
     return "unknown", "z3+cvc5", time.time() - t0, None
